@@ -66,6 +66,7 @@ Failed(o) ==
   IF o.obs.panic THEN {"panic"} ELSE IF o.obs.timeout THEN {"timeout"} ELSE
   LET v == o.vec IN
   IF o.obs.err # "" THEN {"unexpected-error"} ELSE
+  IF CliBad(o.obs) THEN {"cli-wiring"} ELSE
   IF o.obs.header # ExpectHeader(v) THEN {"header"} ELSE
   IF ~RowsShapeOK(o) THEN {"rows-in-query-order"} ELSE
     (IF \A qi \in 1..Len(v.queries) : QueryOK(o, qi) THEN {} ELSE {"nearest-under-order"})
